@@ -292,6 +292,12 @@ func matchJS(j JD, g GV, t reflect.Type, extra map[string]string, at string) str
 	if t != nil && t.Kind() == reflect.Interface {
 		t = nil
 	}
+	if t == nil && g.K == "ptr" { // a pointer held in an interface
+		if g.Elems[0].K == "struct" {
+			return matchStruct(j, g.Elems[0], reflect.PointerTo(TypeOf(g.Elems[0].T)), extra, at)
+		}
+		g = g.Elems[0]
+	}
 	switch g.K {
 	case "nil":
 		if j.Atom != "u" {
@@ -323,10 +329,6 @@ func matchJS(j JD, g GV, t reflect.Type, extra map[string]string, at string) str
 		}
 		if !j.IsA {
 			return bad("want an array-like")
-		}
-		var keys []string
-		for k := range extra {
-			keys = append(keys, k)
 		}
 		if len(j.A) != len(g.Elems) {
 			return bad(fmt.Sprintf("want length %d", len(g.Elems)))
@@ -426,7 +428,7 @@ func matchKeysT(j JD, want map[string]GV, methods map[string]bool, types map[str
 			}
 		default:
 			if exp, ok := extra[p.Key]; ok {
-				if p.Val.String() != exp {
+				if exp != "*" && p.Val.String() != exp {
 					return fmt.Sprintf("%s.%s: script-only property shows %s, was set to %s", orTop(at), p.Key, p.Val.String(), exp)
 				}
 				continue
